@@ -18,7 +18,7 @@ func init() {
 			"Shared with C13 for the range strategy's exactly-once clause: member i gets partitions[f(i):f(i+1)] for one and the same rounding expression f, so that consecutive slices tile the topic without gap or overlap even where floating-point rounding is involved (C13.range-telescoping). " +
 			"The partition lists consumerGroup.balance hands to Plan are Client.Partitions: the client builds them, per topic and per set, from setPartitionCache — sorted, duplicate-free, never one list filtered in place out of the other (C15.pair, C15.sorted-writable, shared: a list with a duplicate and an omission makes every strategy assign one partition twice and another to nobody). " +
 			"NOT covered: that every partition is assigned, and to exactly one member, by the sticky strategy; balance (C13).",
-		Rules: []func(*Ctx){c08Rules, c13Range, c08ErrLost, c13MovementsPerPlan, c08OwnedPotentialLists, c08EveryUnassignedOffered, c13MovementBookkeeping, c08TopicsOfEveryMember, c08FixedRestoredLast, c15Pair, c15SortedWritable, c13SortedSearch, c13ScoreExact},
+		Rules: []func(*Ctx){c08Rules, c13Range, c08ErrLost, c13MovementsPerPlan, c08OwnedPotentialLists, c08EveryUnassignedOffered, c13MovementBookkeeping, c08TopicsOfEveryMember, c08FixedRestoredLast, c15Pair, c15SortedWritable, c13SortedSearch, c13ScoreExact, c15ReadSets},
 	})
 }
 
